@@ -615,20 +615,36 @@ def run_ops(ctx: Ctx, n_cases: int):
 # ----------------------------------------------------------------------------- laws (the property on the real code)
 
 def tdist_blocks(name, A_, B_):
-    """per-block distances between two group tensors (float64): q sign-free abs, t abs, s relative"""
+    """per-item, per-block distances between two group tensors (float64): q sign-free abs, t max-abs, s relative;
+    each value is a tensor over the batch shape (NaN-preserving)"""
     a, b = A_.double(), B_.double()
     qa, qb = a[..., U.QSL[name]], b[..., U.QSL[name]]
-    out = {"q": float(torch.minimum((qa - qb).norm(dim=-1), (qa + qb).norm(dim=-1)).max()) if a.numel() else 0.0}
+    out = {"q": torch.minimum((qa - qb).norm(dim=-1), (qa + qb).norm(dim=-1))}
     if U.TSL[name] is not None:
-        out["t"] = float((a[..., U.TSL[name]] - b[..., U.TSL[name]]).abs().max()) if a.numel() else 0.0
+        out["t"] = (a[..., U.TSL[name]] - b[..., U.TSL[name]]).abs().amax(-1)
     if U.SIDX[name] is not None:
         i = U.SIDX[name]
-        out["s"] = float(((a[..., i] - b[..., i]).abs() / b[..., i].abs()).max()) if a.numel() else 0.0
+        out["s"] = (a[..., i] - b[..., i]).abs() / b[..., i].abs()
     return out
 
 
+def worst_bad(d, lim):
+    """{block: 'err>tol@flat-index'} for blocks where some item violates ITS OWN tolerance (NaN counts as violation)"""
+    bad = {}
+    for k2, v in d.items():
+        L = lim[k2]
+        L = L if isinstance(L, torch.Tensor) else torch.full_like(v, float(L))
+        viol = ~(v <= L)
+        if bool(viol.any()):
+            r = torch.where(viol, torch.nan_to_num(v / L.clamp_min(1e-300), nan=float("inf")), torch.zeros_like(v)).reshape(-1)
+            j = int(r.argmax())
+            bad[k2] = f"{float(v.reshape(-1)[j]):.3e}>{float(L.reshape(-1)[j]):.3e}@item{j}"
+    return bad
+
+
 def law_case(ctx: Ctx, case) -> bool:
-    """Adj / AdjT / Retr-add identities on the real code for one (X, a) pair of batched operands (shapes broadcastable)"""
+    """Adj / AdjT / Retr-add identities on the real code for one (X, a) pair of batched operands (shapes broadcastable).
+    Every item is judged against its own block tolerances (no batch-wide magnitude)."""
     P = U.pp()
     name, dtype = case["type"], case["dtype"]
     D, e = U.dt(dtype), teps(dtype)
@@ -641,34 +657,33 @@ def law_case(ctx: Ctx, case) -> bool:
     a = P.LieTensor(torch.tensor(case["a"], dtype=torch.float64).reshape(sb + (A,)).to(D), ltype=algT)
     if X.numel() == 0 or a.numel() == 0:
         return True
-    xr, ar = X.tensor().double().reshape(-1, G).tolist(), a.tensor().double().reshape(-1, A).tolist()
     n0 = len(ctx.failures)
+    Xe = X.tensor().double().expand(so + (G,))
+    ae = a.tensor().double().expand(so + (A,))
+    zero = torch.zeros(so, dtype=torch.float64)
 
-    def mx(rows, sl):
-        return max((n2(r[sl]) for r in rows), default=0.0) if sl is not None else 0.0
-    nphi, ntau, nt = mx(ar, U.PHISL[name]), mx(ar, U.TAUSL[name]), mx(xr, U.TSL[name])
-    sXs = [r[U.SIDX[name]] for r in xr] if U.SIDX[name] is not None else [1.0]
-    sX, sXi = max(sXs), 1.0 / min(sXs)
-    sgs = [r[U.SIGIDX[name]] for r in ar] if U.SIGIDX[name] is not None else [0.0]
-    es, asg = math.exp(max(sgs)), max(abs(v) for v in sgs)
-    wn = wnorm(name, max(sgs))
+    def nrm(t, sl):
+        return t[..., sl].norm(dim=-1) if sl is not None else zero
+    nphi, ntau, nt = nrm(ae, U.PHISL[name]), nrm(ae, U.TAUSL[name]), nrm(Xe, U.TSL[name])
+    sX = Xe[..., U.SIDX[name]] if U.SIDX[name] is not None else zero + 1
+    sg = ae[..., U.SIGIDX[name]] if U.SIGIDX[name] is not None else zero
+    es, asg = sg.exp(), sg.abs()
+    wn = (zero + 2.0) if name == "SE3" else 2.0 * torch.maximum(zero + 1, es)
+    fl = SCALE_FLOOR[dtype]
     tq = K_ALG * e * (1 + nphi)
     tsr = K_ALG * e * (1 + asg)
+    kt = 4 * math.sqrt(e) + K_ALG * e
     try:
         # X @ Exp(a) = Exp(Adj(X, a)) @ X
         lhs, rhs = X @ a.Exp(), X.Adj(a).Exp() @ X
         tsc = nt + sX * wn * ntau + wn * (sX * ntau + nt * (nphi + asg)) + es * nt
-        d = tdist_blocks(name, lhs.tensor(), rhs.tensor())
-        lim = {"q": tq, "t": (4 * math.sqrt(e) + K_ALG * e) * (tsc + SCALE_FLOOR[dtype]), "s": tsr}
-        bad = {k: f"{v:.3e}>{lim[k]:.3e}" for k, v in d.items() if not v <= lim[k]}
+        bad = worst_bad(tdist_blocks(name, lhs.tensor(), rhs.tensor()), {"q": tq, "t": kt * (tsc + fl), "s": tsr})
         if bad:
             ctx.fail(case, f"adj-law: X@Exp(a) != Exp(Adj(X,a))@X for {name} ({dtype}, shapes {sa},{sb}): {bad}")
         # Exp(a) @ X = X @ Exp(AdjT(X, a))
         lhs, rhs = a.Exp() @ X, X @ X.AdjT(a).Exp()
-        tsc = wn * ntau + es * nt + nt + sX * sXi * wn * (ntau + nt * (nphi + asg))
-        d = tdist_blocks(name, lhs.tensor(), rhs.tensor())
-        lim = {"q": tq, "t": (4 * math.sqrt(e) + K_ALG * e) * (tsc + SCALE_FLOOR[dtype]), "s": tsr}
-        bad = {k: f"{v:.3e}>{lim[k]:.3e}" for k, v in d.items() if not v <= lim[k]}
+        tsc = wn * ntau + es * nt + nt + wn * (ntau + nt * (nphi + asg))
+        bad = worst_bad(tdist_blocks(name, lhs.tensor(), rhs.tensor()), {"q": tq, "t": kt * (tsc + fl), "s": tsr})
         if bad:
             ctx.fail(case, f"adjT-law: Exp(a)@X != X@Exp(AdjT(X,a)) for {name} ({dtype}, shapes {sa},{sb}): {bad}")
         # Retr(X,a) = X + a = add = add_ = Exp(a) @ X ; extra components ignored ; alpha
@@ -685,14 +700,13 @@ def law_case(ctx: Ctx, case) -> bool:
             Xc1, Xc2 = X.clone(), X.clone()
             forms["add_"] = Xc1.add_(at)
             forms["add_(cat(a,junk))"] = Xc2.add_(torch.cat([at, junk[..., :1]], -1))
-        lim = {"q": 16 * e, "t": 16 * e * (wn * ntau + es * nt + SCALE_FLOOR[dtype]), "s": 16 * e}
+        lim = {"q": 16 * e, "t": 16 * e * (wn * ntau + es * nt + fl), "s": 16 * e}
         for nm, v in forms.items():
             if not isinstance(v, P.LieTensor) or v.ltype != X.ltype or tuple(v.shape) != so + (G,) or v.dtype != D:
                 ctx.fail(case, f"retr-type: {nm} returned {type(v).__name__} {getattr(v, 'ltype', None)} {tuple(v.shape)} for {name} "
                                f"(shapes {sa},{sb})")
                 continue
-            d = tdist_blocks(name, v.tensor(), ref.tensor())
-            bad = {k: f"{val:.3e}>{lim[k]:.3e}" for k, val in d.items() if not val <= lim[k]}
+            bad = worst_bad(tdist_blocks(name, v.tensor(), ref.tensor()), lim)
             if bad:
                 ctx.fail(case, f"retr-law: {nm} != Exp(a)@X for {name} ({dtype}, shapes {sa},{sb}): {bad}")
         if not torch.equal(X.tensor(), X0):
@@ -703,16 +717,16 @@ def law_case(ctx: Ctx, case) -> bool:
             # second update on the same object composes: (X + a) + a = Exp(a)@Exp(a)@X
             Xc1.add_(at)
             ref2 = a.Exp() @ (a.Exp() @ X)
-            d = tdist_blocks(name, Xc1.tensor(), ref2.tensor())
-            lim2 = {"q": 32 * e, "t": 32 * e * (wn * ntau * (1 + es) + es * es * nt + SCALE_FLOOR[dtype]), "s": 32 * e}
-            bad = {k: f"{val:.3e}>{lim2[k]:.3e}" for k, val in d.items() if not val <= lim2[k]}
+            lim2 = {"q": 32 * e, "t": 32 * e * (wn * ntau * (1 + es) + es * es * nt + fl), "s": 32 * e}
+            bad = worst_bad(tdist_blocks(name, Xc1.tensor(), ref2.tensor()), lim2)
             if bad:
                 ctx.fail(case, f"retr-history: second add_ on the same object != Exp(a)@Exp(a)@X for {name} ({dtype}): {bad}")
         # zero tangent vector is neutral
         z = torch.zeros(A, dtype=D)
-        d = tdist_blocks(name, (X + z).tensor(), X.tensor())
-        if max(d.values()) > 4 * e * (1 + nt):
-            ctx.fail(case, f"retr-zero: X + 0 != X for {name} ({dtype}): {d}")
+        bad = worst_bad(tdist_blocks(name, (X + z).tensor(), X.tensor().expand(so + (G,))),
+                        {"q": 4 * e, "t": 4 * e * (nt + fl), "s": 4 * e})
+        if bad and so == sa:
+            ctx.fail(case, f"retr-zero: X + 0 != X for {name} ({dtype}): {bad}")
     except Exception as ex:
         ctx.fail(case, f"raises: law evaluation on {name} (shapes {sa},{sb}) raised {type(ex).__name__}: {str(ex)[:160]}")
     return len(ctx.failures) == n0
